@@ -63,6 +63,9 @@ func GenParams(t *rapid.T, p Profile) ParamSpec {
 		ps.Prefix = rapid.IntRange(2010, 2016).Draw(t, "rprefix")
 		ps.Spacing = uint32(rapid.SampledFrom([]int{100, 149, 150, 151, 300, 600, 1200, 2399, 2400, 2401, 4000}).Draw(t, "spacing"))
 		ps.PowBits = rapid.SampledFrom([]uint32{0x207fffff, 0x2000ffff, 0x1f7fffff}).Draw(t, "powbits")
+		// half of these chains are test networks: once a retarget has made the target harder than the limit, blocks
+		// of two difficulties alternate (the 20-minute rule), and so do the branches of a fork
+		ps.Testnet = rapid.Bool().Draw(t, "testnet")
 	}
 	if p.Halving && ps.Prefix < 1000 && rapid.IntRange(0, 5).Draw(t, "halving") == 0 {
 		k := uint32(rapid.IntRange(1, 34).Draw(t, "halvings"))
